@@ -365,10 +365,21 @@ def run_group(repo, res):
                 problems.append(f"`{a} = {b}` missing after the flush")
             # 2. change-test completeness
             disj = iff.test.values if isinstance(iff.test, ast.BoolOp) and isinstance(iff.test.op, ast.Or) else [iff.test]
+            # a name bound once to `len(X)` stands for it (`n = len(X)` ... `b == n`, `range(1, n + 1)`)
+            len_defs = {}
+            for s_ in ast.walk(fn):
+                if isinstance(s_, ast.Assign) and len(s_.targets) == 1 and isinstance(s_.targets[0], ast.Name):
+                    len_defs.setdefault(s_.targets[0].id, []).append(s_.value)
+            len_defs = {k: ast.unparse(v[0]) for k, v in len_defs.items() if len(v) == 1 and re.fullmatch(r"len\(\w+\)", ast.unparse(v[0]))}
+
+            def _ln(t_):
+                for k, v in len_defs.items():
+                    t_ = re.sub(rf"\b{k}\b", v, t_)
+                return t_
             row_b, row_a = f"{M}[{b}]", f"{M}[{a}]"
             has_shape = has_val = has_last = False
             for d in disj:
-                t = ast.unparse(d)
+                t = _ln(ast.unparse(d))
                 if t in (f"{row_b}.shape != {row_a}.shape", f"{row_a}.shape != {row_b}.shape"):
                     has_shape = True
                 if t in (f"not np.all({row_b} == {row_a})", f"not np.all({row_a} == {row_b})", f"np.any({row_b} != {row_a})", f"np.any({row_a} != {row_b})",
@@ -385,7 +396,7 @@ def run_group(repo, res):
             if not has_shape:
                 problems.append(f"rows are admitted to a run without comparing the shape of {row_b} with {row_a}")
             # 3. coverage: the last run is flushed with bound len(...)
-            it = ast.unparse(loop.iter)
+            it = _ln(ast.unparse(loop.iter))
             covered = has_last and re.fullmatch(r"range\(1, len\(\w+\) \+ 1\)", it) is not None
             if not covered:
                 # alternatively a flush after the loop
